@@ -12,6 +12,7 @@ The model constants come from the code, so an invariant violation reported by TL
 property.  The model itself is validated against real interpreters: predicted sys.modules order and
 module namespaces must equal what `python -c "import lena.X"` produces.
 """
+import concurrent.futures
 import os
 import random
 import shutil
@@ -19,6 +20,7 @@ import shutil
 from .. import core
 from .. import extract_imports as ei
 from .. import importslib as il
+from .. import localflow
 
 ACTIONS = tuple(a for a in ("LoadModule", "BindImport", "BindFrom", "DefName", "UseName", "EndModule", "EndUser",
                                     "Call", "EndCall"))
@@ -137,10 +139,41 @@ def run(ctx):
                                "statements": sum(len(b) for b in data["body"].values()),
                                "global_loads": sum(len(f["loads"]) for f in data["funcs"]),
                                "attribute_chains": sum(len(f["chains"]) for f in data["funcs"]),
+                               "local_flow_functions": sum(1 for f in data["funcs"] if f["fnodes"]),
+                               "local_flow_nodes": sum(len(f["fnodes"]) for f in data["funcs"]),
+                               "local_flow_seeds": sum(len(f["fseeds"]) for f in data["funcs"]),
                                "entry_lists": len(lists)}
 
     # ------------------------------------------------------------------ design level: TLC on the extracted model
-    res = ctx.mc(datamod, "Imports_%s.cfg" % tag, coverage=True, expect_violation="report")
+    # the interpreter probes do not depend on TLC's output: they run while TLC does
+    scratch = os.path.join(ctx.workdir, "scratch")
+    jobs = []
+    for k, es in enumerate(lists):
+        stars = [e for e in es if e in data["all"]] if len(es) == 1 else []
+        jobs.append((("imp", tuple(es)), dict(entries=es, scratch=os.path.join(scratch, "imp%d" % k), stars=stars)))
+    plan = []
+    for pkg in subs:
+        names = il.public_names(data, pkg)
+        items = il.smoke_items(pkg, names)
+        for n in names:
+            jobs.append((("only", pkg, n), dict(entries=[pkg], pkg=pkg, smoke=items[n],
+                                                scratch=os.path.join(scratch, "only_%s_%s" % (pkg, n)))))
+        allitems = [it for n in names for it in items[n]]
+        jobs.append((("all", pkg), dict(entries=list(subs), pkg=pkg, smoke=allitems,
+                                        scratch=os.path.join(scratch, "all_%s" % pkg))))
+        plan.append((pkg, names, items))
+    nrand = 60 if ctx.thorough else 14
+    for k in range(nrand):
+        es = rnd.sample(data["modules"], rnd.randint(2, 4))
+        jobs.append((("rand", k), dict(entries=es, scratch=os.path.join(scratch, "rand%d" % k))))
+    pool = concurrent.futures.ThreadPoolExecutor(max_workers=3)
+    f_probes = pool.submit(il.run_many, ctx, jobs)
+    f_export = pool.submit(ctx.export, datamod, "Imports_%s_export.cfg" % tag, min_records=len(lists))
+    try:
+        res = ctx.mc(datamod, "Imports_%s.cfg" % tag, coverage=True, expect_violation="report")
+        recs_future_result = f_export.result()
+    finally:
+        pool.shutdown(wait=True)
     if res.exit == 0:
         for a in ACTIONS:
             if res.coverage.get(a, 0) == 0:
@@ -149,9 +182,10 @@ def run(ctx):
         raise core.MachineryError("Imports model is inconsistent (%s):\n%s" % (res.violated, res.out[-2500:]))
 
     # every prediction of the model (all violations, not only the first one TLC stops at)
-    recs = ctx.export(datamod, "Imports_%s_export.cfg" % tag, min_records=len(lists))
+    recs = recs_future_result
     ready = {}
     predicted_bad = False
+    tlc_dead = set()
     for r in recs:
         if r["t"] == "ready":
             ready[tuple(r["entries"])] = r
@@ -166,6 +200,13 @@ def run(ctx):
                 find.add("GlobalsResolve:%s:%s" % (r["m"], ld["name"]),
                          what="global name %r is loaded but never bound in %s (NameError when reached)" % (ld["name"], r["m"]),
                          functions=["%s line %d" % (r["f"], ld["line"])])
+            for ld in r.get("locals", []):
+                find.add("LocalsResolve:%s:%s" % (r["m"], ld["name"]),
+                         what="local name %r can be read while it is unbound (UnboundLocalError, a NameError): it is "
+                              "deleted at the end of `except ... as %s` / by del, or its only assignment is the "
+                              "statement that raised" % (ld["name"], ld["name"]),
+                         functions=["%s line %d" % (r["f"], ld["line"])])
+                tlc_dead.add((r["f"], ld["name"], ld["line"]))
             for c in r["chains"]:
                 find.add("ChainsResolve:%s:%s.%s" % (r["m"], c["on"], c["attr"]),
                          what="%s is evaluated in %s although nothing it imports loads %s.%s" % (
@@ -177,6 +218,17 @@ def run(ctx):
             fl = r["fail"]
             find.add("ImportsSucceed:%s:%s:%s" % (fl["m"], fl["kind"], (fl["on"] + "." if fl["on"] else "") + fl["name"]),
                      what="import fails", line=fl["line"], entries=[r["entries"]])
+    # the path search over the binding events is TLC's; the reference implementation must agree
+    ref_dead = set()
+    for f in data["funcs"]:
+        if f["fnodes"]:
+            nodes = [[n["op"], n["name"], n["line"]] for n in f["fnodes"]]
+            succ = [[y - 1 for y in ys] for ys in f["fsucc"]]
+            seeds = [(x["t"] - 1, x["h"] - 1, x["last"] - 1, x["name"]) for x in f["fseeds"]]
+            ref_dead |= set((f["id"], n, ln) for n, ln in localflow.dead_loads(nodes, succ, seeds))
+    if ref_dead != tlc_dead:
+        raise core.MachineryError("LocalsResolve: TLC %s and the reference search %s disagree" % (
+            sorted(tlc_dead), sorted(ref_dead)))
     if (res.exit != 0) != predicted_bad:
         raise core.MachineryError("model check (violated %s) and export (violations %s) disagree" % (
             res.violated, sorted(find.items)))
@@ -184,12 +236,8 @@ def run(ctx):
         ctx.extra["tlc_first_violation"] = res.violated
 
     # ------------------------------------------------------------------ S2C: predictions against fresh interpreters
-    scratch = os.path.join(ctx.workdir, "scratch")
-    jobs = []
-    for k, es in enumerate(lists):
-        stars = [e for e in es if e in data["all"]] if len(es) == 1 else []
-        jobs.append((tuple(es), dict(entries=es, scratch=os.path.join(scratch, "imp%d" % k), stars=stars)))
-    probes = il.run_many(ctx, jobs)
+    allres = f_probes.result()
+    probes = dict((tuple(es), allres[("imp", tuple(es))]) for es in lists)
     traces = []
     for es in lists:
         key = tuple(es)
@@ -222,19 +270,7 @@ def run(ctx):
                                          "namespace_of_" + key[0]: sorted(ready[key]["mods"][key[0]])[:40]}})
 
     # ------------------------------------------------------------------ smoke table: only X imported vs everything
-    jobs = []
-    plan = []
-    for pkg in subs:
-        names = il.public_names(data, pkg)
-        items = il.smoke_items(pkg, names)
-        for n in names:
-            jobs.append((("only", pkg, n), dict(entries=[pkg], pkg=pkg, smoke=items[n],
-                                                scratch=os.path.join(scratch, "only_%s_%s" % (pkg, n)))))
-        allitems = [it for n in names for it in items[n]]
-        jobs.append((("all", pkg), dict(entries=list(subs), pkg=pkg, smoke=allitems,
-                                        scratch=os.path.join(scratch, "all_%s" % pkg))))
-        plan.append((pkg, names, items))
-    sm = il.run_many(ctx, jobs)
+    sm = allres
     n_smoke = 0
     for pkg, names, items in plan:
         full = sm[("all", pkg)]
@@ -266,12 +302,7 @@ def run(ctx):
 
     # ------------------------------------------------------------------ C2S: event logs of import sequences beyond
     # the entry lists of the model check, validated by Trace_Imports
-    nrand = 60 if ctx.thorough else 14
-    jobs = []
-    for k in range(nrand):
-        es = rnd.sample(data["modules"], rnd.randint(2, 4))
-        jobs.append((("rand", k), dict(entries=es, scratch=os.path.join(scratch, "rand%d" % k))))
-    rp = il.run_many(ctx, jobs)
+    rp = allres
     for k in range(nrand):
         p = rp[("rand", k)]
         ctx.case(["import-sequence", p["events"][0]["entries"]])
